@@ -22,6 +22,8 @@ Not proved: "blocks beyond its deadline" (runtime; observed by the driver's watc
 message_reader.go (D14 belongs to C02; the driver counts panics on cut fetch responses).
 -/
 import KafkaVerif.Props.C11
+import KafkaVerif.Lemmas.TransportConnC17
+import KafkaVerif.Props.C02
 
 namespace KV.C17
 open KV KV.Reader KV.ConnOps
@@ -131,5 +133,84 @@ theorem produce_frame_every_cut :
         let r := connDo o 2 [116] ⟨(C11.d2Frame 1).take k, 1, false⟩
         r.1.isFail && r.2.closed
       | none => false) = true := by decide
+
+/-! ### Transport path: a failed connection is never used again, the next request runs on another one
+
+Model/TransportConn.lean: the life cycle of transport.go's connections as an LTS whose events are the existing
+`verifEvent("T.…")` hook points; tie = trace acceptance of the recorded events of every end-to-end case of the driver
+(Client / Writer over a real kafka.Transport against the fake broker, response cut at byte k, then follow-up calls). -/
+
+open KV.TransportConn in
+/-- for ALL event sequences the LTS accepts: after an exchange on c failed (T.Done c, not ok, not ErrNoRecord) no later
+event grabs c, receives a request on it, completes an exchange on it, releases it to the idle stack or removes it from
+there — c can only exit — and it is still dead at the end. -/
+theorem failed_conn_never_reused (s0 s3 : State) (pre post : List TransportConn.Ev) (c : Nat)
+    (h : run s0 (pre ++ [TransportConn.Ev.done c false false] ++ post) = some s3) :
+    (∀ e ∈ post, uses c e = false) ∧ dead s3 c := by
+  rw [List.append_assoc, run_append] at h
+  cases h1 : run s0 pre with
+  | none => simp [h1] at h
+  | some s1 =>
+    simp only [h1, Option.bind_some, List.singleton_append, run] at h
+    cases h2 : step s1 (TransportConn.Ev.done c false false) with
+    | none => simp [h2] at h
+    | some s2 =>
+      simp only [h2] at h
+      have hd : dead s2 c := by
+        simp only [step, Bool.or_self, Bool.false_eq_true, ↓reduceIte] at h2
+        obtain ⟨st, hg, _, rfl⟩ := move_spec h2
+        exact Or.inl (get_set_same _ hg)
+      have := dead_run post hd h
+      exact ⟨this.2, this.1⟩
+
+open KV.TransportConn in
+/-- so the request after a cut runs on a different connection: whatever is grabbed or created later is not c, and a
+grabbed connection is one that sits on the idle stack (released after a completed exchange, or never used). -/
+theorem resume_after_cut (s0 s3 : State) (pre post : List TransportConn.Ev) (c : Nat)
+    (h : run s0 (pre ++ [TransportConn.Ev.done c false false] ++ post) = some s3) :
+    (∀ c', TransportConn.Ev.grab c' ∈ post → c' ≠ c) ∧ (∀ c' g, TransportConn.Ev.new c' g ∈ post → c' ≠ c) ∧ (∀ c', TransportConn.Ev.recv c' ∈ post → c' ≠ c) := by
+  have hu := (failed_conn_never_reused s0 s3 pre post c h).1
+  refine ⟨fun c' hm hc => ?_, fun c' g hm hc => ?_, fun c' hm hc => ?_⟩ <;>
+    · have := hu _ hm
+      subst hc
+      simp [uses] at this
+
+open KV.TransportConn in
+theorem grab_takes_idle (s s' : State) (c : Nat) (h : step s (TransportConn.Ev.grab c) = some s') : get s c = some St.idle := by
+  obtain ⟨st, hg, hf, _⟩ := move_spec h
+  cases st <;> first | exact hg | exact absurd hf (by decide)
+
+open KV.TransportConn in
+/-- the LTS accepts the normal life of a connection (non-vacuity), and refuses the seeded-mutant shape: releasing
+a connection to the idle stack after a failed exchange. -/
+theorem transport_examples :
+    (run [] [.new 1 0, .recv 1, .done 1 true false, .release 1 true, .grab 1, .recv 1, .done 1 false false, .exit 1,
+             .new 2 0, .recv 2, .done 2 true false, .release 2 true, .closeIdle 0, .exit 2]).isSome = true ∧
+    run [] [.new 1 0, .recv 1, .done 1 false false, .release 1 true] = none ∧
+    run [] [.new 1 0, .recv 1, .done 1 false true, .release 1 true, .grab 1] ≠ none := by decide
+
+/-! ### inside the message set: no cut makes the fetch path panic (as far as the C02 decoder model reaches)
+
+`fetch_cut_is_error` above treats message_reader.go as "any byte-conserving reader".  The C02 builder's model of that
+reader (Model/MessageSetReader.lean: readHeader / readMessageV2 / markRead / Batch.readMessage as a token machine,
+`Variant.fixed` = the code after the D4/D14/D15 fixes) has `Outcome.desync` for "parses bytes of one kind as another /
+`panic: markRead: negative count`".  A connection lost after k bytes of the message set presents the decoder with
+exactly the token stream `truncate (allTokens items) k` of Spec/Layout.lean (complete tokens, then a token on which
+the next `read*` fails — with io.EOF / io.ErrUnexpectedEOF instead of errShortRead, which changes only how the batch
+*ends*, i.e. the part modelled by `fetchRead`, not which statements ran before).  Instantiating C02's
+`single_fetch_partial`: for every log layout made of v2 batches (plain or compressed, compaction holes, retained empty
+batches, gaps), every cut position k and every fetch offset, the decoder does not panic / desynchronise and hands out
+exactly the completely received records at or after the fetch offset — a prefix of what was sent, never fabricated
+data.  v0/v1 message sets: observed by the driver on every cut only (as in C02). -/
+
+open KV.C02 in
+theorem fetch_cut_no_panic_v2 (items : List Item) (nb : Int) (hnb : 0 ≤ nb) (hwf : V2WF nb items)
+    (o hwm : Int) (ho : 0 ≤ o) (hne : hwm ≠ o) (k : Nat) (expired : Bool) :
+    (readAll .fixed expired o hwm (truncate (allTokens items) k)).2.2 ≠ .desync ∧
+    (readAll .fixed expired o hwm (truncate (allTokens items) k)).1 = (contained items k).filter (fun r => o ≤ r.1) := by
+  have h := single_fetch_partial items nb hnb hwf o hwm ho hne (k : Int) expired
+  have hk : ¬ ((k : Int) < 0) := by omega
+  simp only [responseTokens, containedRecords, hk, if_false, Int.toNat_natCast] at h
+  exact ⟨h.2.1, h.1⟩
 
 end KV.C17
